@@ -604,6 +604,11 @@ impl Check for C08 {
     }
 
     fn post(&mut self, ctx: &Ctx, merged: &mut Stats) {
+        if ctx.flavour == crate::sup::Flavour::Rel {
+            let mctx = Ctx { seed: ctx.seed, tier: ctx.tier, flavour: crate::sup::Flavour::Miri };
+            let n = self.fams(&mctx).total();
+            crate::sup::run_valgrind_inproc("C08", ctx, n, 8, merged);
+        }
         // the tokenizer slices the input by byte offsets it maintains by hand: Miri checks every slice
         if ctx.flavour == crate::sup::Flavour::Rel && ctx.tier == crate::sup::Tier::Thorough {
             let mctx = Ctx { seed: ctx.seed, tier: ctx.tier, flavour: crate::sup::Flavour::Miri };
